@@ -46,6 +46,7 @@ type CallSpec struct {
 	ViaTpl  bool   `json:"viatpl,omitempty"`
 	// Loop: the call sits inside @each(x in Loop) and is evaluated once per element;
 	// LoopArgs are extra arguments built from x (see loopArgKinds).
+	Chain    bool     `json:"chain,omitempty"` // recv.fn(args).fn(): the result of the first call is the receiver of the second
 	Loop     []int64  `json:"loop,omitempty"`
 	LoopArgs []string `json:"loopargs,omitempty"`
 }
@@ -117,6 +118,37 @@ func Canon(v Val) any {
 		return Canon(v.A[0])
 	}
 	panic("sim: Canon of " + v.T)
+}
+
+// canonNative normalises a Go value the way a round trip through textwire's
+// objects does: every integer becomes int64 (int for an int receiver), float32
+// becomes float64, slices become []any.
+func canonNative(v any, recvType string) any {
+	switch x := v.(type) {
+	case int:
+		if recvType == "int" {
+			return x
+		}
+		return int64(x)
+	case int64:
+		if recvType == "int" {
+			return int(x)
+		}
+		return x
+	case []any:
+		out := make([]any, len(x))
+		for i, e := range x {
+			out[i] = canonNative(e, "")
+		}
+		return out
+	case map[string]any:
+		out := map[string]any{}
+		for k, e := range x {
+			out[k] = canonNative(e, "")
+		}
+		return out
+	}
+	return v
 }
 
 // sameContent is deep equality that does not distinguish nil from empty.
@@ -246,6 +278,9 @@ func (c CallSpec) build() (string, *Val) {
 		}
 		return "@each(x in [" + strings.Join(elems, ", ") + "]){{ " + recv + "." + c.Name + "(" + strings.Join(args, ", ") + ") }};@end", data
 	}
+	if c.Chain {
+		return "{{ " + recv + "." + c.Name + "(" + strings.Join(args, ", ") + ")." + c.Name + "() }}", data
+	}
 	return "{{ " + recv + "." + c.Name + "(" + strings.Join(args, ", ") + ") }}", data
 }
 
@@ -275,12 +310,14 @@ func recvNative(c CallSpec) any {
 
 // ---- generation -------------------------------------------------------------------
 
+// per type: two free names, two names of built-ins of that type, two names that are
+// built-ins of OTHER receiver types only
 var c20Names = map[string][]string{
-	"str":   {"foo", "bar", "trim", "len"},
-	"arr":   {"foo", "bar", "join", "len"},
-	"int":   {"foo", "bar", "abs", "str"},
-	"float": {"foo", "bar", "abs", "ceil"},
-	"bool":  {"foo", "bar", "then", "binary"},
+	"str":   {"foo", "bar", "trim", "len", "abs", "join"},
+	"arr":   {"foo", "bar", "join", "len", "upper", "ceil"},
+	"int":   {"foo", "bar", "abs", "str", "join", "trim"},
+	"float": {"foo", "bar", "abs", "ceil", "len", "reverse"},
+	"bool":  {"foo", "bar", "then", "binary", "reverse", "len"},
 }
 var c20Types = []string{"str", "arr", "int", "float", "bool"}
 
@@ -358,6 +395,11 @@ func genCall(r *Rng, typ, name string, viaTpl bool) CallSpec {
 	for i := 0; i < n; i++ {
 		c.Args = append(c.Args, genArg(r, 2))
 		c.ArgLit = append(c.ArgLit, r.Chance(50))
+	}
+	if r.Chance(15) && (name == "foo" || name == "bar") {
+		// only for names that are no built-in of any type: the chain then stays within one receiver type
+		c.Chain = true
+		return c
 	}
 	if r.Chance(25) {
 		// the same call site evaluated several times in one render, with arguments built from the loop variable
@@ -515,6 +557,9 @@ func c20Check(sc *Scenario, acc *Acc) (*c20Fail, int) {
 				if len(c.Loop) == 0 {
 					want = [][]any{base}
 				}
+				if c.Chain {
+					want = append(want, []any{})
+				}
 				for _, x := range c.Loop {
 					args := append([]any{}, base...)
 					for _, k := range c.LoopArgs {
@@ -530,6 +575,10 @@ func c20Check(sc *Scenario, acc *Acc) (*c20Fail, int) {
 					if got.Fn != fn {
 						return &c20Fail{"wrong-function", "the call reaches another function than the first one registered for (type, name)", fmt.Sprint("fn", fn), fmt.Sprint("fn", got.Fn)}, i
 					}
+					if c.Chain && k == 1 {
+						// the second call's receiver is the first call's result, converted back
+						recv = canonNative(Catalogue(c.Recv, fn, copyAny(newCalls[0].Recv), copyAny([]any(newCalls[0].Args)).([]any)), c.Recv)
+					}
 					if !sameContent(got.Recv, recv) {
 						return &c20Fail{"receiver-conversion", "the function does not receive the receiver as the plain Go value of the same content", Describe(recv), Describe(got.Recv)}, i
 					}
@@ -541,7 +590,10 @@ func c20Check(sc *Scenario, acc *Acc) (*c20Fail, int) {
 						return &c20Fail{what, "the function does not receive the arguments as plain Go values of the same content", Describe(want[k]), Describe([]any(got.Args))}, i
 					}
 					// the result prints as if the Go value had been passed as data
-					res := Catalogue(c.Recv, fn, got.Recv, got.Args)
+					res := Catalogue(c.Recv, fn, copyAny(got.Recv), copyAny([]any(got.Args)).([]any))
+					if c.Chain && k == 0 {
+						continue // only the outer call's result is printed
+					}
 					exp += c20AsData(res, false)
 					if len(c.Loop) > 0 {
 						exp += ";"
